@@ -142,7 +142,7 @@ def fresh_of(ty, name, ctr):
     if ty == "dyn":
         return V("dyn", z3.Const(n, Dyn))
     if ty[0] == "ref":
-        return mk_ref(z3.Const(n, Ref), ty[1])
+        return V(ty, z3.Const(n, Ref))
     if ty[0] == "list":
         return mk_list(z3.Const(n, Ref), ty[1])
     if ty[0] == "enum":
